@@ -175,11 +175,6 @@ func (b builder) stateInit(r *rand.Rand, inline bool) tlb.StateInit {
 	if r.Intn(3) != 0 {
 		s.Data = tlb.Maybe[tlb.Ref[boc.Cell]]{Exists: true, Value: tlb.Ref[boc.Cell]{Value: *randCell(r, 300, 2, 1)}}
 	}
-	if !inline && b.wide && r.Intn(3) == 0 {
-		var k tlb.Bits256
-		r.Read(k[:])
-		s.Library = tlb.NewHashmapE([]tlb.Bits256{k}, []tlb.SimpleLib{{Public: true, Root: *randCell(r, 100, 0, 0)}})
-	}
 	return s
 }
 
@@ -270,6 +265,7 @@ type decoded struct {
 	cells          []cells.C
 	h, hc, hn, hnc string
 	boc            string // the bag the message cell was parsed from (replay input)
+	m              *tlb.Message
 }
 
 // libraryCell: library cell (exotic type 2): 8-bit type tag + 256-bit hash
@@ -282,42 +278,34 @@ func libraryCell(r *rand.Rand) *boc.Cell {
 	return c
 }
 
-// withBodyRef re-assembles an encoded message whose body is in a reference so that the reference is `body` itself
-// (the encoder copies a body into a fresh ordinary cell, so an exotic body cannot be expressed through it).
-func withBodyRef(c *boc.Cell, body *boc.Cell) (*boc.Cell, error) {
-	n := boc.NewCell()
-	if err := n.WriteBitString(c.RawBitString()); err != nil {
-		return nil, err
+// roundTrip lays the message out (encodeSpec) and decodes the cell twice: without a hasher (tlb.Unmarshal) on the cell as
+// built in memory or as parsed from its bag, and with a caching hasher (dec, shared with earlier messages) on a fresh parse.
+// exoticBody, if set, is referenced as the body.
+func roundTrip(m *tlb.Message, dec *tlb.Decoder, viaBoc bool, exoticBody *boc.Cell) (*decoded, error) {
+	c, err := encodeSpec(m, exoticBody)
+	if err != nil {
+		return nil, fmt.Errorf("layout: %w", err)
 	}
-	refs := c.Refs()
-	for _, x := range refs[:len(refs)-1] {
-		if err := n.AddRef(x); err != nil {
-			return nil, err
-		}
-	}
-	return n, n.AddRef(body)
+	return decodeCell(c, dec, viaBoc)
 }
 
-// roundTrip encodes m with the library and decodes the cell back twice: without a hasher (tlb.Unmarshal) on the cell as
-// built in memory, and with a caching hasher (dec, shared with earlier messages) on the cell as parsed from its bag.
-// exoticBody, if set, replaces the referenced body cell of the encoded message.
-func roundTrip(m *tlb.Message, dec *tlb.Decoder, viaBoc bool, exoticBody *boc.Cell) (*decoded, error) {
-	c := boc.NewCell()
-	if err := tlb.Marshal(c, *m); err != nil {
-		return nil, fmt.Errorf("marshal: %w", err)
-	}
-	if exoticBody != nil {
-		var err error
-		if c, err = withBodyRef(c, exoticBody); err != nil {
-			return nil, err
-		}
-	}
+func decodeCell(c *boc.Cell, dec *tlb.Decoder, viaBoc bool) (*decoded, error) {
 	bag, err := c.ToBoc()
 	if err != nil {
 		return nil, fmt.Errorf("toboc: %w", err)
 	}
 	return decodeBag(bag, c, dec, viaBoc)
 }
+
+// decodeErr: the library refused (or panicked on) a message cell the specification can read: recorded, never fatal
+type decodeErr struct {
+	stage string
+	cells []cells.C
+	boc   string
+	err   error
+}
+
+func (e *decodeErr) Error() string { return e.stage + ": " + e.err.Error() }
 
 // decodeBag decodes the message in `bag` (c: the same cell in memory, or nil) without and with a caching hasher.
 func decodeBag(bag []byte, c *boc.Cell, dec *tlb.Decoder, viaBoc bool) (*decoded, error) {
@@ -336,12 +324,12 @@ func decodeBag(bag []byte, c *boc.Cell, dec *tlb.Decoder, viaBoc bool) (*decoded
 			return nil, err
 		}
 	}
-	var m1, m2 tlb.Message
 	d.cells = table(c1) // the cell the message is about to be decoded from
-	if err := tlb.Unmarshal(c1, &m1); err != nil {
-		return nil, fmt.Errorf("unmarshal: %w", err)
+	d.m = &tlb.Message{}
+	if err := safely(func() error { return tlb.Unmarshal(c1, d.m) }); err != nil {
+		return nil, &decodeErr{"unmarshal", d.cells, d.boc, err}
 	}
-	d.h, d.hn = msgReport(&m1)
+	d.h, d.hn = msgReport(d.m)
 	c2, err := parse()
 	if err != nil {
 		return nil, err
@@ -349,11 +337,30 @@ func decodeBag(bag []byte, c *boc.Cell, dec *tlb.Decoder, viaBoc bool) (*decoded
 	if !reflect.DeepEqual(d.cells, table(c2)) {
 		return nil, fmt.Errorf("the bag round trip changed the cells (C01 territory)")
 	}
-	if err := dec.Unmarshal(c2, &m2); err != nil {
-		return nil, fmt.Errorf("unmarshal with hasher: %w", err)
+	var m2 tlb.Message
+	if err := safely(func() error { return dec.Unmarshal(c2, &m2) }); err != nil {
+		return nil, &decodeErr{"unmarshal-with-hasher", d.cells, d.boc, err}
 	}
 	d.hc, d.hnc = msgReport(&m2)
 	return d, nil
+}
+
+// buildEvent exercises the library's own encoder on the decoded message: Marshal, then decode what it wrote.
+//
+//	enc / dec: "" or "e";  libcells: the cell the library's encoder produced
+func buildEvent(class string, d *decoded) ev.M {
+	e := ev.M{"k": "Build", "class": class, "cells": d.cells, "boc": d.boc, "enc": "", "dec": "", "libcells": []cells.C{}}
+	c := boc.NewCell()
+	if err := safely(func() error { return tlb.Marshal(c, *d.m) }); err != nil {
+		e["enc"], e["err"] = "e", err.Error()
+		return e
+	}
+	e["libcells"] = table(c)
+	var back tlb.Message
+	if err := safely(func() error { return tlb.Unmarshal(c, &back) }); err != nil {
+		e["dec"], e["err"] = "e", err.Error()
+	}
+	return e
 }
 
 func safely(f func() error) (err error) {
